@@ -158,6 +158,13 @@ def gen_cases(rng, tier):
         for r in sorted({0, 1, 2, total - 1, total, max(0, total // 2)}):
             cases.append(Case("sptenrand", {"shape": list(shp), "mode": "nonzeros", "p": r, "q": 1, "seed": seed}, total > 1))
             seed += 1
+    # the witnesses of the recorded findings, always present
+    cases.append(Case("aggregator", {"shape": [4], "N": 1, "subs": [[0]], "vals": [3], "reducer": "max"}, False))
+    cases.append(Case("sptendiag", {"e": [5], "shape": None}, False))
+    cases.append(Case("sptenrand", {"shape": [10, 10], "mode": "density", "p": 1, "q": 256, "seed": 0}, True))
+    cases.append(Case("sp_from_function", {"shape": [2, 3], "p": 0, "q": 1, "fn": "ones", "seed": 0}, True))
+    cases.append(Case("sp_from_function", {"shape": [2, 3], "p": 5, "q": 1, "fn": "ones", "seed": 0}, True))
+    cases.append(Case("sptenrand", {"shape": [2, 2], "mode": "density", "p": 1, "q": 1, "seed": 0}, True))
     # teneye
     for m, n in [(2, 1), (2, 2), (2, 3), (2, 4), (4, 1), (4, 2), (4, 3)] + ([(6, 2)] if big else []):
         x = [Fraction(rng.randint(-3, 3), rng.randint(1, 3)) for _ in range(n)]
@@ -498,11 +505,15 @@ def oracle(c, o):
             return None if len(a["ovals"]) != n else f"raised {o['exc']}"
         if len(a["ovals"]) != n:
             return "function output of the wrong size accepted"
+        if o["asked"] != [a["shape"]]:
+            return f"the function was called with {o['asked']} instead of the requested shape"
         if o["ok"]["shape"] != a["shape"] or o["ok"]["data"] != a["ovals"]:
             return "data is not the function's output laid out first-index-fastest"
     elif c.op == "kfrom_function":
         if "exc" in o:
             return f"raised {o['exc']}"
+        if o["asked"] != [[d, a["R"]] for d in a["shape"]]:
+            return f"the function was called with {o['asked']} instead of (shape[n], R) per mode"
         if o["ok"]["weights"] != [1] * a["R"] or o["ok"]["factors"] != a["outs"]:
             return "weights not all one or factors differ from the function's outputs"
     elif c.op in ("tendiag", "sptendiag"):
